@@ -19,6 +19,7 @@ package PVM
 //@   props C01 C02 C03
 //@   spec pvm.smt2
 //@   key op uint8 20,51,100,102..111,131..161,190..230
+//@   opt noframe
 //@   requires nonnil: interp != nil && instr != nil
 //@   requires fields: regs_ok(op, instr)
 //@   ensures exit: result0 == ExitContinue && result1 == instr.PC
@@ -35,6 +36,7 @@ package PVM
 //@   props C01 C02 C03
 //@   spec pvm.smt2
 //@   key op uint8 0,1
+//@   opt noframe
 //@   requires nonnil: interp != nil && instr != nil
 //@   ensures trap: op == 0 ==> result0 == ExitPanic && result1 == instr.PC
 //@   ensures fallthrough: op == 1 ==> result0 == ExitContinue && result1 == instr.PC
@@ -45,6 +47,7 @@ package PVM
 //@   props C01 C03
 //@   spec pvm.smt2
 //@   key op uint8 2..9,11..19,21..29,34..39,41..49,63..69,74..79,91..99,112..119,162..169,176..179,181..189,231..255
+//@   opt noframe
 //@   requires nonnil: interp != nil && instr != nil
 //@   ensures trap: result0 == ExitPanic && result1 == instr.PC
 //@   ensures frame: frame_only()
@@ -54,6 +57,7 @@ package PVM
 //@   props C01 C07
 //@   spec pvm.smt2
 //@   key op uint8 10
+//@   opt noframe
 //@   requires nonnil: interp != nil && instr != nil
 //@   requires imm: uint64(int64(int32(instr.Imm[0]))) == instr.Imm[0]
 //@   ensures kind: uint64(result0) >> 56 == 5
@@ -64,6 +68,7 @@ package PVM
 //@   props C01 C02 C03
 //@   spec pvm.smt2
 //@   key op uint8 81..90,170..175
+//@   opt noframe
 //@   requires nonnil: interp != nil && instr != nil && interp.Program != nil
 //@   requires wf: wf_code(interp.Program) && regs_ok(op, instr)
 //@   let target = ProgramCounter(ite(op >= 170, instr.Imm[0], instr.Imm[1]))
@@ -77,6 +82,7 @@ package PVM
 //@   props C01 C02 C03
 //@   spec pvm.smt2
 //@   key op uint8 40,80
+//@   opt noframe
 //@   requires nonnil: interp != nil && instr != nil && interp.Program != nil
 //@   requires wf: wf_code(interp.Program) && regs_ok(op, instr)
 //@   let target = ProgramCounter(ite(op == 40, instr.Imm[0], instr.Imm[1]))
@@ -124,12 +130,14 @@ package PVM
 //@   ensures okbytes0: memIndex >= 65536 && writable(interp.Memory, memIndex, uint32(offset)) ==> forall(j, 0, 4096, (j < int(memIndex%4096) || j >= int(memIndex%4096) + offset) ==> p0v[j] == old(p0v[j]))
 //@   ensures okbytes1: memIndex >= 65536 && writable(interp.Memory, memIndex, uint32(offset)) && crosses(memIndex, uint32(offset)) ==> forall(j, 0, 4096, j >= int(memIndex%4096) + offset - 4096 ==> p1v[j] == old(p1v[j]))
 //@   opt slow=3
+//@   assigns p0v[*], p1v[*]
 
 // ---- loads / stores through the memory primitives (modular: the callee contracts above are used at the call sites) ----
 //@ table instrMetaExecForOpcode load
 //@   props C01 C02 C03 C05
 //@   spec pvm.smt2
 //@   key op uint8 52..58,124..130
+//@   opt noframe
 //@   let a = spec.pvm_mem_addr(op, interp.Registers[instr.Src[0]], instr.Imm[0])
 //@   let n = uint32(spec.pvm_mem_width(op))
 //@   requires nonnil: interp != nil && instr != nil && regs_ok(op, instr)
@@ -142,6 +150,7 @@ package PVM
 //@   props C01 C02 C03 C05
 //@   spec pvm.smt2
 //@   key op uint8 30..33,59..62,70..73,120..123
+//@   opt noframe
 //@   let a = spec.pvm_mem_addr(op, interp.Registers[instr.Src[0]], instr.Imm[0])
 //@   let n = uint32(spec.pvm_mem_width(op))
 //@   let v = spec.pvm_store_trunc(op, ite(spec.pvm_store_imm(op), instr.Imm[1], interp.Registers[instr.Dst]))
@@ -165,6 +174,7 @@ package PVM
 //@   props C01 C02 C03
 //@   spec pvm.smt2
 //@   key op uint8 50,180
+//@   opt noframe
 //@   let a = uint32(interp.Registers[instr.Src[0]] + ite(op == 50, instr.Imm[0], instr.Imm[1]))
 //@   let valid = a != 0 && uint64(a) <= uint64(interp.Program.JumpTable.Size)*2 && a%2 == 0
 //@   let e = jt_entry(interp.Program, a/2 - 1)
@@ -205,13 +215,18 @@ package PVM
 
 //@ func (*Program).preDecodeBlocks
 //@   props C03
+//@   assigns everything
+//@   ensures keep: p.InstructionData == old(p.InstructionData) && p.Bitmasks == old(p.Bitmasks) && p.JumpTable == old(p.JumpTable)
 //@   requires wf: p != nil && len(p.Bitmasks) == len(p.InstructionData) && len(p.InstructionData) < 4294967000
 //@   loop rangeindex#0
 //@     invariant range: rangeindex >= -1 && rangeindex < len(p.InstrIdxAt)
+//@     invariant keep: p.InstructionData == old(p.InstructionData) && p.Bitmasks == old(p.Bitmasks) && p.JumpTable == old(p.JumpTable)
 //@   loop pc#0
 //@     invariant lens: len(p.InstrIdxAt) == len(idata) && len(p.BlockAt) == len(idata)
+//@     invariant keep: p.InstructionData == old(p.InstructionData) && p.Bitmasks == old(p.Bitmasks) && p.JumpTable == old(p.JumpTable)
 //@   loop pc#1
 //@     invariant lens: len(p.InstrIdxAt) == len(idata) && len(p.BlockAt) == len(idata)
+//@     invariant keep: p.InstructionData == old(p.InstructionData) && p.Bitmasks == old(p.Bitmasks) && p.JumpTable == old(p.JumpTable)
 
 //@ func MakeBitMasks
 //@   props C03
@@ -229,7 +244,37 @@ package PVM
 
 //@ func DeBlobProgramCode
 //@   props C03
+//@   assigns everything
 //@   requires size: len(data) < 4294967000
 //@   ensures wf: result1 == ExitContinue ==> wf_code_v(result0) && wf_jt_v(result0)
 //@ pred wf_code_v(p) = len(p.Bitmasks) == len(p.InstructionData) && len(p.Bitmasks) < 4294967296
 //@ pred wf_jt_v(p) = p.JumpTable.Length <= 8 && p.JumpTable.Size < 2147483648 && uint64(p.JumpTable.Size) * uint64(p.JumpTable.Length) < 4294967296 && uint64(len(p.JumpTable.Data)) >= uint64(p.JumpTable.Size) * uint64(p.JumpTable.Length)
+
+// ---- gas accounting of host calls (C04, C07) ----
+//@ func chargeGasAndCheck
+//@   props C04 C07
+//@   requires nonnil: input != nil && input.VM != nil && input.VM.Gas != nil
+//@   requires sane: *input.VM.Gas > -9223372036854775000
+//@   ensures charged: *input.VM.Gas == old(*input.VM.Gas) - 10
+//@   ensures oog: (result != nil) == (old(*input.VM.Gas) < 10)
+//@   ensures exit: result != nil ==> result.ExitReason == ExitOOG
+//@   ensures frame: frame_only(*input.VM.Gas)
+//@   assigns *input.VM.Gas
+
+//@ func hostCallException
+//@   props C04 C07
+//@   requires nonnil: input.VM != nil && input.VM.Gas != nil && input.VM.Registers != nil
+//@   requires sane: *input.VM.Gas > -9223372036854775000
+//@   ensures charged: *input.VM.Gas == old(*input.VM.Gas) - 10
+//@   ensures oog: old(*input.VM.Gas) < 10 ==> result.ExitReason == ExitOOG && frame_only(*input.VM.Gas)
+//@   ensures what: old(*input.VM.Gas) >= 10 ==> result.ExitReason == ExitContinue && input.VM.Registers[7] == WHAT && frame_only(*input.VM.Gas, input.VM.Registers[7])
+//@   assigns *input.VM.Gas, input.VM.Registers[7]
+
+//@ func gas
+//@   props C04 C07
+//@   requires nonnil: input.VM != nil && input.VM.Gas != nil && input.VM.Registers != nil
+//@   requires sane: *input.VM.Gas > -9223372036854775000
+//@   ensures charged: *input.VM.Gas == old(*input.VM.Gas) - 10
+//@   ensures oog: old(*input.VM.Gas) < 10 ==> result.ExitReason == ExitOOG && frame_only(*input.VM.Gas)
+//@   ensures ok: old(*input.VM.Gas) >= 10 ==> result.ExitReason == ExitContinue && input.VM.Registers[7] == uint64(*input.VM.Gas) && frame_only(*input.VM.Gas, input.VM.Registers[7])
+//@   assigns *input.VM.Gas, input.VM.Registers[7]
